@@ -71,6 +71,7 @@ def run(tier):
     # long structured programs (scopes that close, names declared twice in a scope, kept function names, globals named like locals)
     for k in range(1500 if tier == "quick" else 20000):
         allc.append(renamer_gen.program(rng, nstmts=rng.randint(12, 60), names=rng.choice([("a", "b", "x"), ("a", "b"), ("a", "b", "x", "f", "c"), ("a", "self", "b"), ("self", "x")])))
+    allc += [r for r in vlib.pinned_reproducers(PID) if "events" in r]      # regression inputs of the fixed findings
     for k, c in enumerate(allc):
         c["id"] = "p%d" % k
         c["listed"] = ["u"]
